@@ -113,7 +113,7 @@ func drawChunks(t *rapid.T, label string, size int) []int {
 	return c
 }
 
-var plainKinds = []string{"write-msg", "writer", "read-data", "read-msg", "reader", "ping", "ping", "pong", "compiled"}
+var plainKinds = []string{"write-msg", "writer", "writer", "writer-fail", "shared-send", "read-data", "read-msg", "reader", "ping", "ping", "pong", "compiled"}
 var flateKinds = []string{"flate-send", "flate-recv", "flate-writer", "flate-reader"}
 
 // drawTemplate draws the shape of a session. light = layer 2 (many sessions per case).
@@ -263,6 +263,25 @@ func renderWire(b []byte) string {
 		fmt.Fprintf(&sb, " unparsed=%d", len(rest))
 	}
 	return sb.String()
+}
+
+// renderMessage renders what a pooled Writer sent without its fragment
+// boundaries: opcode of the first frame, whether the frames form one message
+// (continuations, FIN on the last only, uniform masking, no RSV bits), payload.
+func renderMessage(b []byte) string {
+	fs, rest, _ := ref.ParseFrames(b)
+	if len(fs) == 0 {
+		return fmt.Sprintf("[] unparsed=%d", len(rest))
+	}
+	wellFormed := len(rest) == 0
+	var payload []byte
+	for i, f := range fs {
+		if (i > 0 && f.H.Op != ref.OpCont) || f.H.Fin != (i == len(fs)-1) || f.H.Masked != fs[0].H.Masked || f.H.Rsv != 0 {
+			wellFormed = false
+		}
+		payload = append(payload, f.Payload...)
+	}
+	return fmt.Sprintf("{message op=%x masked=%t one-message=%t %s}", fs[0].H.Op, fs[0].H.Masked, wellFormed, digest(payload))
 }
 
 // wirePayload concatenates the data frames of b; ok says that b is a sequence
@@ -423,6 +442,9 @@ func newSession(id int, tp *template) *session {
 			f, p := o, o
 			f.name, p.name = "writer-flush", "writer-put"
 			s.ops = append(s.ops, f, p)
+		case "writer-fail":
+			o.fam, o.class = "writer", sizeClass(sp.WSize)
+			s.ops = append(s.ops, o)
 		case "flate-writer":
 			a, b := o, o
 			a.name, b.name = "flate-writer-write", "flate-writer-flush"
@@ -808,7 +830,10 @@ func (s *session) stepWriterGet(o op) {
 	s.wrec = tx.NewRec()
 	s.wsent = nil
 	s.w = wsutil.GetWriter(s.dst(s.wrec), s.state, wop, o.spec.WSize)
-	s.logf("size=%d buffered=%d", s.w.Size(), s.w.Buffered())
+	// Size() is not recorded: GetWriter documents "at least n"; a recycled
+	// Writer may be a few bytes larger than a new one, which moves fragment
+	// boundaries. The writer steps therefore record the message, not its split.
+	s.logf("buffered=%d size>=%t", s.w.Buffered(), s.w.Size() >= o.spec.WSize-14)
 }
 
 func (s *session) stepWriterWrite(o op) {
@@ -817,12 +842,12 @@ func (s *session) stepWriterWrite(o op) {
 	lo, hi := len(p)*o.part/n, len(p)*(o.part+1)/n
 	k, err := s.w.Write(p[lo:hi])
 	s.wsent = append(s.wsent, p[lo:hi]...)
-	s.logf("n=%d err=%s buffered=%d", k, renderErr(err), s.w.Buffered())
+	s.logf("n=%d err=%s", k, renderErr(err))
 }
 
 func (s *session) stepWriterFlush(o op) {
 	err := s.w.Flush()
-	s.logf("err=%s wrote=%s", renderErr(err), renderWire(s.wrec.Bytes()))
+	s.logf("err=%s wrote=%s", renderErr(err), renderMessage(s.wrec.Bytes()))
 	_, rop := s.opcode(o.spec)
 	got, ok := wirePayload(s.wrec.Bytes(), rop, s.tpl.Client)
 	s.expect(err == nil && ok && bytes.Equal(got, s.wsent), "Writer: the wire does not carry one message with the %d bytes written", len(s.wsent))
@@ -832,6 +857,65 @@ func (s *session) stepWriterPut(o op) {
 	wsutil.PutWriter(s.w)
 	s.w = nil
 	s.logf("returned")
+}
+
+// stepWriterFail: a connection that breaks. The session builds a Writer whose
+// Size() is a pool class (so that the shared pool keeps it), writes until the
+// destination error is recorded and returns the Writer with PutWriter, as the
+// documentation invites to. Whoever gets it from GetWriter next must be able
+// to use it as a new one.
+func (s *session) stepWriterFail(o op) {
+	wop, _ := s.opcode(o.spec)
+	size := sizeClass(o.spec.WSize)
+	rec := tx.NewRec()
+	rec.FailAt = 0
+	w := wsutil.NewWriterSize(s.dst(rec), s.state, wop, size)
+	p := content(s.id, 1000+o.idx*16, size+10, o.spec.Text)
+	n, err := w.Write(p)
+	ferr := w.Flush()
+	s.logf("size=%d n=%d err=%s flush=%s accepted=%d", w.Size(), n, renderErr(err), renderErr(ferr), rec.Len())
+	s.expect(err != nil && ferr != nil, "a Writer over a failing destination reports no error (Write: %v, Flush: %v)", err, ferr)
+	wsutil.PutWriter(w)
+}
+
+// sharedPayloads are read-only messages every session may send (an
+// application fanning one message out to many connections). Nobody but
+// TestMain writes them.
+var sharedPayloads = [][]byte{content(0, 7001, 200, true), content(0, 7002, 5000, false), content(0, 7003, 70000, false)}
+
+func (s *session) stepSharedSend(o op) {
+	p := sharedPayloads[o.spec.Which%len(sharedPayloads)]
+	wop, rop := ws.OpBinary, byte(ref.OpBinary)
+	if o.spec.Which%len(sharedPayloads) == 0 {
+		wop, rop = ws.OpText, ref.OpText
+	}
+	rec := tx.NewRec()
+	wsize := 64
+	if len(p) > 4096 {
+		wsize = o.spec.WSize // 128..4096, smaller than the payload: Write goes through
+	}
+	var err error
+	api := ""
+	switch (o.spec.Which / len(sharedPayloads)) % 3 {
+	case 0:
+		api = "Writer.Write"
+		w := wsutil.NewWriterSize(s.dst(rec), s.state, wop, wsize)
+		if _, err = w.Write(p); err == nil {
+			err = w.Flush()
+		}
+	case 1:
+		api = "Writer.WriteThrough"
+		w := wsutil.NewWriterSize(s.dst(rec), s.state, wop, wsize)
+		if _, err = w.WriteThrough(p); err == nil {
+			err = w.Flush()
+		}
+	default:
+		api = "WriteMessage"
+		err = wsutil.WriteMessage(s.dst(rec), s.state, wop, p)
+	}
+	s.logf("%s len=%d err=%s wrote=%s", api, len(p), renderErr(err), renderWire(rec.Bytes()))
+	got, ok := wirePayload(rec.Bytes(), rop, s.tpl.Client)
+	s.expect(err == nil && ok && bytes.Equal(got, p), "%s: the wire does not carry the shared %d-byte message", api, len(p))
 }
 
 func (s *session) stepReadData(o op) {
@@ -1310,6 +1394,10 @@ func (s *session) step() {
 			s.stepWriterFlush(o)
 		case "writer-put":
 			s.stepWriterPut(o)
+		case "writer-fail":
+			s.stepWriterFail(o)
+		case "shared-send":
+			s.stepSharedSend(o)
 		case "read-data":
 			s.stepReadData(o)
 		case "read-msg":
